@@ -5,7 +5,7 @@ class C06(Prop):
     id = "C06"
     harness = "c06"
     props_file = "Properties/C06.v"
-    coq_modules = ["Stop/Check.v", "Stop/CheckProofs.v", "Stop/GenStop.v", "Stop/GenStopProofs.v"]
+    coq_modules = ["Stop/Check.v", "Stop/CheckProofs.v", "Stop/GenStop.v", "Stop/GenStopProofs.v", "Stop/GenStopSim.v"]
     level = "proof"
     rule = ("the real lifecycle service of both engines with the real connector/processor/pipeline services on an "
             "in-memory DB behind fake plugins; 10 topologies (1-3 sources, 1-3 destinations, pipeline / connector "
